@@ -156,11 +156,25 @@ impl<VM: VMBinding> GCWorker<VM> {
     /// Add a work packet to the work queue and mark it with a higher priority.
     /// If the bucket is open, the packet will be pushed to the local queue, otherwise it will be
     /// pushed to the global bucket with a higher priority.
+    #[cfg_attr(feature = "mmtk_verif", allow(unreachable_code))]
     pub fn add_work_prioritized(&mut self, bucket: WorkBucketStage, work: impl GCWork<VM>) {
         if !self.scheduler().work_buckets[bucket].is_open()
             || self.local_work_buffer.len() >= Self::LOCALLY_CACHED_WORK_PACKETS
         {
             self.scheduler.work_buckets[bucket].add_prioritized(Box::new(work));
+            return;
+        }
+        // Verification build: box the packet first so that its id can be logged BEFORE the push
+        // (same effect as the original line below, which becomes unreachable).
+        #[cfg(feature = "mmtk_verif")]
+        {
+            let verif_boxed: Box<dyn GCWork<VM>> = Box::new(work);
+            crate::verif::gc::ev(
+                crate::verif::gc::Kind::WorkerLocalPush,
+                crate::verif::gc::pid(&*verif_boxed),
+                crate::verif::gc::tag(verif_boxed.get_type_name(), bucket as usize),
+            );
+            self.local_work_buffer.push(verif_boxed);
             return;
         }
         self.local_work_buffer.push(Box::new(work));
@@ -169,11 +183,25 @@ impl<VM: VMBinding> GCWorker<VM> {
     /// Add a work packet to the work queue.
     /// If the bucket is open, the packet will be pushed to the local queue, otherwise it will be
     /// pushed to the global bucket.
+    #[cfg_attr(feature = "mmtk_verif", allow(unreachable_code))]
     pub fn add_work(&mut self, bucket: WorkBucketStage, work: impl GCWork<VM>) {
         if !self.scheduler().work_buckets[bucket].is_open()
             || self.local_work_buffer.len() >= Self::LOCALLY_CACHED_WORK_PACKETS
         {
             self.scheduler.work_buckets[bucket].add(work);
+            return;
+        }
+        // Verification build: box the packet first so that its id can be logged BEFORE the push
+        // (same effect as the original line below, which becomes unreachable).
+        #[cfg(feature = "mmtk_verif")]
+        {
+            let verif_boxed: Box<dyn GCWork<VM>> = Box::new(work);
+            crate::verif::gc::ev(
+                crate::verif::gc::Kind::WorkerLocalPush,
+                crate::verif::gc::pid(&*verif_boxed),
+                crate::verif::gc::tag(verif_boxed.get_type_name(), bucket as usize),
+            );
+            self.local_work_buffer.push(verif_boxed);
             return;
         }
         self.local_work_buffer.push(Box::new(work));
@@ -197,10 +225,22 @@ impl<VM: VMBinding> GCWorker<VM> {
     /// 4. Steal from other workers
     fn poll(&mut self) -> PollResult<VM> {
         if let Some(work) = self.shared.designated_work.pop() {
+            #[cfg(feature = "mmtk_verif")]
+            crate::verif::gc::ev(
+                crate::verif::gc::Kind::DesignatedPop,
+                crate::verif::gc::pid(&*work),
+                crate::verif::gc::tag(work.get_type_name(), 0xff),
+            );
             return Ok(work);
         }
 
         if let Some(work) = self.local_work_buffer.pop() {
+            #[cfg(feature = "mmtk_verif")]
+            crate::verif::gc::ev(
+                crate::verif::gc::Kind::WorkerLocalPop,
+                crate::verif::gc::pid(&*work),
+                crate::verif::gc::tag(work.get_type_name(), 0xff),
+            );
             return Ok(work);
         }
 
@@ -229,6 +269,8 @@ impl<VM: VMBinding> GCWorker<VM> {
         self.scheduler.resolve_affinity(self.ordinal);
         self.tls = tls;
         self.copy = crate::plan::create_gc_worker_context(tls, mmtk);
+        #[cfg(feature = "mmtk_verif")]
+        crate::verif::gc::ev(crate::verif::gc::Kind::WorkerRun, self.ordinal, 0);
         loop {
             // Instead of having work_start and work_end tracepoints, we have
             // one tracepoint before polling for more work and one tracepoint
@@ -254,8 +296,18 @@ impl<VM: VMBinding> GCWorker<VM> {
             std::hint::black_box(unsafe { *(typename.as_ptr()) });
 
             probe!(mmtk, work, typename.as_ptr(), typename.len());
+            #[cfg(feature = "mmtk_verif")]
+            let verif_pid = crate::verif::gc::pid(&*work);
+            #[cfg(feature = "mmtk_verif")]
+            let verif_tag = crate::verif::gc::tag(typename, 0xff);
+            #[cfg(feature = "mmtk_verif")]
+            crate::verif::gc::ev(crate::verif::gc::Kind::PacketStart, verif_pid, verif_tag);
             work.do_work_with_stat(&mut self, mmtk);
+            #[cfg(feature = "mmtk_verif")]
+            crate::verif::gc::ev(crate::verif::gc::Kind::PacketEnd, verif_pid, verif_tag);
         }
+        #[cfg(feature = "mmtk_verif")]
+        crate::verif::gc::ev(crate::verif::gc::Kind::WorkerLeave, self.ordinal, 0);
         debug!(
             "Worker exiting. ordinal: {}, {}",
             self.ordinal,
@@ -334,6 +386,8 @@ impl<VM: VMBinding> WorkerGroup<VM> {
         };
 
         let workers = self.create_workers(local_work_queues, mmtk);
+        #[cfg(feature = "mmtk_verif")]
+        crate::verif::gc::ev(crate::verif::gc::Kind::InitialSpawn, workers.len(), 0);
         self.spawn(workers, tls);
 
         *state = Some(WorkerCreationState::Spawned);
@@ -347,6 +401,8 @@ impl<VM: VMBinding> WorkerGroup<VM> {
             panic!("GCWorker structs have not been created, yet.");
         };
 
+        #[cfg(feature = "mmtk_verif")]
+        crate::verif::gc::ev(crate::verif::gc::Kind::Respawn, workers.len(), 0);
         self.spawn(workers, tls);
 
         *state = Some(WorkerCreationState::Spawned)
